@@ -12,5 +12,12 @@ def gen_registry():
     return langs
 
 
+def gen_presets():
+    """coq/Gen/Gen_Presets.v: built-in presets and init templates as typed Gate.Validate.config values (C17)."""
+    import gen_gate
+    gen_gate.write_gen_presets()
+
+
 def generate_all():
     gen_registry()
+    gen_presets()
